@@ -23,6 +23,7 @@ structure A where
 
 def bumpV2 (c : Core) : Core := { c with nWrites := c.nWrites + 1 }
 def withKey (c : Core) (k : Bytes) : Core := { c with localKey := some k }
+def noKey (c : Core) : Core := { c with localKey := none }
 def freshCore (cid : Nat) (v3 : Bool) : Core := { cid := cid, v3 := v3 }
 
 /-- effect of one critical operation on the core / counter, or `none` if the automaton refuses it -/
@@ -38,6 +39,8 @@ def A.eff (a : A) (e : Ev) : Option (Option Core × Nat) :=
     if c.cid = cid ∧ c.v3 = false then some (some (bumpV2 c), a.nConn) else none
   | .accept cid k, some c =>
     if c.cid = cid then some (some (withKey c k), a.nConn) else none
+  | .forget cid, some c =>
+    if c.cid = cid then some (some (noKey c), a.nConn) else none
   | .closed cid, some c =>
     if c.cid = cid then some (none, a.nConn) else none
   | _, _ => none
@@ -76,7 +79,7 @@ theorem A.Run.evs {a b : A} {tr : List Ev} (h : A.Run a tr b) : b.evs = a.evs ++
 /-! ### observers of the log -/
 
 def evCid : Ev → Nat
-  | .connect c _ => c | .wrHS c _ _ => c | .wrData c _ _ _ => c | .wrV2 c _ => c | .accept c _ => c | .closed c => c
+  | .connect c _ => c | .wrHS c _ _ => c | .wrData c _ _ _ => c | .wrV2 c _ => c | .accept c _ => c | .forget c => c | .closed c => c
 
 /-- an encrypted request or a V2 packet: anything that carries application data -/
 def isData : Ev → Bool
@@ -85,15 +88,15 @@ def isData : Ev → Bool
 def isConnect : Ev → Bool
   | .connect .. => true | _ => false
 
-/-- the session key most recently accepted on connection `cid` -/
-def lastAccept (cid : Nat) : List Ev → Option Bytes
-  | [] => none
-  | e :: t =>
-    match lastAccept cid t with
-    | some k => some k
-    | none => match e with
-      | .accept c k => if c = cid then some k else none
-      | _ => none
+/-- what one event does to the session key held for connection `cid` -/
+def keyStep (cid : Nat) (k : Option Bytes) : Ev → Option Bytes
+  | .accept c k' => if c = cid then some k' else k
+  | .forget c => if c = cid then none else k
+  | _ => k
+
+/-- the session key accepted on connection `cid` by the latest handshake started on it, if that
+    handshake succeeded (an acceptance not followed by the start of another handshake) -/
+def lastAccept (cid : Nat) (l : List Ev) : Option Bytes := l.foldl (keyStep cid) none
 
 /-- number of V3 packets (handshake requests and encrypted requests) written on connection `cid` -/
 def nPackets (cid : Nat) : List Ev → Nat
@@ -103,37 +106,27 @@ def nPackets (cid : Nat) : List Ev → Nat
   | _ :: t => nPackets cid t
 
 theorem lastAccept_snoc (cid : Nat) (l : List Ev) (e : Ev) :
-    lastAccept cid (l ++ [e]) =
-      (match e with
-       | .accept c k => if c = cid then some k else lastAccept cid l
-       | _ => lastAccept cid l) := by
-  induction l with
-  | nil => cases e <;> simp [lastAccept] <;> split <;> simp_all
-  | cons a t ih =>
-    simp only [List.cons_append, lastAccept, ih]
-    cases e <;> simp only []
-    all_goals (try (cases lastAccept cid t <;> rfl))
-    rename_i c k
-    by_cases hc : c = cid
-    · simp [hc]
-    · simp only [hc, if_false]
+    lastAccept cid (l ++ [e]) = keyStep cid (lastAccept cid l) e := by
+  simp [lastAccept, List.foldl_append]
 
 theorem nPackets_append (cid : Nat) (a b : List Ev) : nPackets cid (a ++ b) = nPackets cid a + nPackets cid b := by
   induction a with
   | nil => simp [nPackets]
   | cons e t ih => cases e <;> simp [nPackets, ih] <;> omega
 
-theorem lastAccept_none_of_bound (cid : Nat) (l : List Ev) (h : ∀ e ∈ l, evCid e < cid) : lastAccept cid l = none := by
-  induction l with
+theorem keyStep_other {cid : Nat} {e : Ev} (h : evCid e ≠ cid) (k : Option Bytes) : keyStep cid k e = k := by
+  cases e <;> simp_all [keyStep, evCid]
+
+theorem foldl_keyStep_other (cid : Nat) (l : List Ev) (h : ∀ e ∈ l, evCid e ≠ cid) (k : Option Bytes) :
+    l.foldl (keyStep cid) k = k := by
+  induction l generalizing k with
   | nil => rfl
   | cons e t ih =>
-    have ht := ih (fun x hx => h x (List.mem_cons_of_mem _ hx))
-    simp only [lastAccept, ht]
-    cases e <;> simp only []
-    rename_i c k
-    have := h (.accept c k) (List.mem_cons_self ..)
-    simp only [evCid] at this
-    rw [if_neg (by omega)]
+    simp only [List.foldl_cons]
+    rw [keyStep_other (h e (List.mem_cons_self ..)), ih (fun x hx => h x (List.mem_cons_of_mem _ hx))]
+
+theorem lastAccept_none_of_bound (cid : Nat) (l : List Ev) (h : ∀ e ∈ l, evCid e < cid) : lastAccept cid l = none :=
+  foldl_keyStep_other cid l (fun e he => by have := h e he; omega) none
 
 theorem nPackets_zero_of_bound (cid : Nat) (l : List Ev) (h : ∀ e ∈ l, evCid e < cid) : nPackets cid l = 0 := by
   induction l with
@@ -155,6 +148,7 @@ def EvOk (pre : List Ev) (e : Ev) : Prop :=
       ctr = nPackets cid pre % 4096 ∧ (∃ v3, .connect cid v3 ∈ pre) ∧ .closed cid ∉ pre
   | .wrV2 cid _ => .connect cid false ∈ pre ∧ .closed cid ∉ pre
   | .accept cid _ => (∃ v3, .connect cid v3 ∈ pre) ∧ .closed cid ∉ pre
+  | .forget cid => (∃ v3, .connect cid v3 ∈ pre) ∧ .closed cid ∉ pre
   | .connect cid _ => ∀ x ∈ pre, evCid x < cid
   | .closed cid => (∃ v3, .connect cid v3 ∈ pre) ∧ .closed cid ∉ pre
 
@@ -247,6 +241,7 @@ theorem A.eff_inv {a : A} {e : Ev} {oc : Option Core} {n : Nat} (h : a.eff e = s
        (∃ k f, e = .wrData c.cid c.packetId k f ∧ c.localKey = some k ∧ oc = some (bump c)) ∨
        (∃ f, e = .wrV2 c.cid f ∧ c.v3 = false ∧ oc = some (bumpV2 c)) ∨
        (∃ k, e = .accept c.cid k ∧ oc = some (withKey c k)) ∨
+       (e = .forget c.cid ∧ oc = some (noKey c)) ∨
        (e = .closed c.cid ∧ oc = none))) := by
   unfold A.eff at h
   split at h
@@ -283,7 +278,13 @@ theorem A.eff_inv {a : A} {e : Ev} {oc : Option Core} {n : Nat} (h : a.eff e = s
     · rename_i c hcore hc
       simp only [Option.some.injEq, Prod.mk.injEq] at h
       subst hc
-      exact .inr ⟨c, hcore, h.2.symm, .inr (.inr (.inr (.inr ⟨rfl, h.1.symm⟩)))⟩
+      exact .inr ⟨c, hcore, h.2.symm, .inr (.inr (.inr (.inr (.inl ⟨rfl, h.1.symm⟩))))⟩
+    · cases h
+  · split at h
+    · rename_i c hcore hc
+      simp only [Option.some.injEq, Prod.mk.injEq] at h
+      subst hc
+      exact .inr ⟨c, hcore, h.2.symm, .inr (.inr (.inr (.inr (.inr ⟨rfl, h.1.symm⟩))))⟩
     · cases h
   · cases h
 
@@ -301,7 +302,7 @@ theorem Inv.step {a a' : A} {e : Ev} (h : Inv a) (hs : A.Step a e a') : Inv a' :
     · intro c hc
       rw [hoc] at hc; cases hc
       refine ⟨by simp [freshCore, hn], ?_, ?_, ?_, ?_⟩
-      · rw [hevs, lastAccept_snoc]; simp [freshCore, lastAccept_none_of_bound _ _ hlt]
+      · rw [hevs, lastAccept_snoc]; simp [freshCore, lastAccept_none_of_bound _ _ hlt, keyStep]
       · rw [hevs, nPackets_append]; simp [freshCore, nPackets, nPackets_zero_of_bound _ _ hlt]
       · rw [hevs]; simp [freshCore]
       · rw [hevs]; intro hm
@@ -315,22 +316,26 @@ theorem Inv.step {a a' : A} {e : Ev} (h : Inv a) (hs : A.Step a e a') : Inv a' :
         · rw [hnone] at hc0; cases hc0
       · cases hm; exact .inr ⟨_, hoc, by simp [freshCore]⟩
   · have ok := h.core c hcore
-    rcases hcase with ⟨tok, rfl, hoc⟩ | ⟨k, f, rfl, hk, hoc⟩ | ⟨f, rfl, hf, hoc⟩ | ⟨k, rfl, hoc⟩ | ⟨rfl, hoc⟩
+    rcases hcase with ⟨tok, rfl, hoc⟩ | ⟨k, f, rfl, hk, hoc⟩ | ⟨f, rfl, hf, hoc⟩ | ⟨k, rfl, hoc⟩ | ⟨rfl, hoc⟩ | ⟨rfl, hoc⟩
     · exact h.step_keep hcore hevs hn hoc rfl rfl rfl (by intro _ _ hh; cases hh) (by intro _ hh; cases hh)
-        (by rw [lastAccept_snoc]; simp [bump, ok.key])
+        (by rw [lastAccept_snoc]; simp [bump, ok.key, keyStep])
         (by rw [nPackets_append]; simp [bump, nPackets, ok.ctr])
         ⟨ok.ctr, ⟨_, ok.conn⟩, ok.open_⟩
     · exact h.step_keep hcore hevs hn hoc rfl rfl rfl (by intro _ _ hh; cases hh) (by intro _ hh; cases hh)
-        (by rw [lastAccept_snoc]; simp [bump, ok.key])
+        (by rw [lastAccept_snoc]; simp [bump, ok.key, keyStep])
         (by rw [nPackets_append]; simp [bump, nPackets, ok.ctr])
         ⟨by rw [← ok.key, hk], ok.ctr, ⟨_, ok.conn⟩, ok.open_⟩
     · exact h.step_keep hcore hevs hn hoc rfl rfl rfl (by intro _ _ hh; cases hh) (by intro _ hh; cases hh)
-        (by rw [lastAccept_snoc]; simp [bumpV2, ok.key])
+        (by rw [lastAccept_snoc]; simp [bumpV2, ok.key, keyStep])
         (by rw [nPackets_append]; simp [bumpV2, nPackets, ok.ctr])
         ⟨by rw [← hf]; exact ok.conn, ok.open_⟩
     · exact h.step_keep hcore hevs hn hoc rfl rfl rfl (by intro _ _ hh; cases hh) (by intro _ hh; cases hh)
-        (by rw [lastAccept_snoc]; simp [withKey])
+        (by rw [lastAccept_snoc]; simp [withKey, keyStep])
         (by rw [nPackets_append]; simp [withKey, nPackets, ok.ctr])
+        ⟨⟨_, ok.conn⟩, ok.open_⟩
+    · exact h.step_keep hcore hevs hn hoc rfl rfl rfl (by intro _ _ hh; cases hh) (by intro _ hh; cases hh)
+        (by rw [lastAccept_snoc]; simp [noKey, keyStep])
+        (by rw [nPackets_append]; simp [noKey, nPackets, ok.ctr])
         ⟨⟨_, ok.conn⟩, ok.open_⟩
     · -- close
       refine ⟨?_, ?_, by rw [hevs]; exact wf_snoc h.wf ⟨⟨_, ok.conn⟩, ok.open_⟩, ?_⟩
@@ -374,7 +379,7 @@ theorem V3Inv.step {a a' : A} {e : Ev} (h : V3Inv a) (hs : A.Step a e a') :
     · intro _ _ hh; cases hh
     · intro _ _ hh; cases hh; exact ht
   · have hc3 := h.2 c hcore
-    rcases hcase with ⟨tok, rfl, hoc⟩ | ⟨k, f, rfl, _, hoc⟩ | ⟨f, rfl, hf, hoc⟩ | ⟨k, rfl, hoc⟩ | ⟨rfl, hoc⟩
+    rcases hcase with ⟨tok, rfl, hoc⟩ | ⟨k, f, rfl, _, hoc⟩ | ⟨f, rfl, hf, hoc⟩ | ⟨k, rfl, hoc⟩ | ⟨rfl, hoc⟩ | ⟨rfl, hoc⟩
     · refine ⟨⟨hv, ?_⟩, ?_, ?_⟩
       · intro c' hc'; rw [hoc] at hc'; cases hc'; simpa [bump] using hc3
       · intro _ _ hh; cases hh
@@ -386,6 +391,10 @@ theorem V3Inv.step {a a' : A} {e : Ev} (h : V3Inv a) (hs : A.Step a e a') :
     · rw [hc3] at hf; cases hf
     · refine ⟨⟨hv, ?_⟩, ?_, ?_⟩
       · intro c' hc'; rw [hoc] at hc'; cases hc'; simpa [withKey] using hc3
+      · intro _ _ hh; cases hh
+      · intro _ _ hh; cases hh
+    · refine ⟨⟨hv, ?_⟩, ?_, ?_⟩
+      · intro c' hc'; rw [hoc] at hc'; cases hc'; simpa [noKey] using hc3
       · intro _ _ hh; cases hh
       · intro _ _ hh; cases hh
     · refine ⟨⟨hv, ?_⟩, ?_, ?_⟩
@@ -493,6 +502,18 @@ theorem run_same_cid {a a' : A} {tr : List Ev} (hr : A.Run a tr a') (hn : ∀ e 
         rcases List.mem_cons.1 hx with rfl | hx
         · simp [evCid, hcid]
         · simpa [withKey] using i1 x hx
+      · cases heff
+    | forget cid =>
+      simp only at heff
+      split at heff
+      · rename_i hcid
+        simp only [Option.some.injEq, Prod.mk.injEq] at heff
+        obtain ⟨i1, i2⟩ := ih hn' (noKey c) heff.1.symm
+        refine ⟨?_, by simpa [noKey] using i2⟩
+        intro x hx
+        rcases List.mem_cons.1 hx with rfl | hx
+        · simp [evCid, hcid]
+        · simpa [noKey] using i1 x hx
       · cases heff
 
 end Msmart.Lemmas.Sess
